@@ -32,6 +32,14 @@ CLAIMS = {
         text="TagContext (copy-on-create, copy-on-read, change_tags algebra) and the tag methods of TestResult, ExtendedToOriginalDecorator, MultiTestResult, TestByTestResult and ThreadsafeForwardingResult are proved to implement a stack of tag sets: startTestRun installs an empty run-level context, startTest pushes a copy, stopTest pops only a context that startTest pushed, tags changes the top only, current_tags returns a fresh copy; ThreadsafeForwardingResult buffers tag changes per test / per run, replays them inside the test's block and forgets them at startTestRun; Tagger applies its tags inside the test.",
         note="The statement 'current_tags equals added minus removed with test-local changes discarded' follows from the per-method stack contracts by induction over the history (written argument); a target has tags() iff it has current_tags (precondition; true of all flavours in the quantifier); PlaceHolder.run and ExtendedToStreamDecorator are covered under C09.",
     ),
+    "C01": dict(
+        text="RunTest is proved against an abstract test case and an extended result: _run_prepared_result delivers startTest, exactly one outcome event and stopTest on EVERY exit; it exits exceptionally iff some caught exception does not derive from Exception, and then that very exception propagates (after stopTest); _run_core reports exactly one outcome itself iff nothing was caught; _got_user_exception records every constituent (MultipleExceptions unpacked, an empty one recorded itself); _run_cleanups empties the stack whatever raises; _pick_exception lets a non-Exception win.",
+        note="User stages (setUp/test/tearDown/cleanups) are abstract callables that may return or raise anything but may only append to the cleanup stack, set force_failure, and never touch the result or the exception list; the handler table holds Exception subclasses and its documented catch-all; handlers emit exactly one outcome and do not raise (proved for the stock _report_* under C03/C05); the result is an ExtendedToOriginalDecorator (C08 carries the bracket to every raw target flavour); termination and asynchronous exceptions are not covered.",
+    ),
+    "C03": dict(
+        text="Outcome soundness is proved on RunTest: addSuccess is emitted only when no exception was caught and force_failure is unset; the handler is the first entry of the table whose class matches the picked exception (loop invariant over the table); the picked exception is never a skip / expected failure when any caught exception is a failure or error, and never an Exception when a non-Exception was caught.",
+        note="Same model of user code as C01; skipException is an Exception subclass (precondition); the stock _report_* handlers' events are covered under C05/C01 contracts on TestCase.",
+    ),
 }
 
 NOT_APPLICABLE = {p: NOT_BUILT for p in ["C%02d" % i for i in range(1, 21)]}
